@@ -3,7 +3,7 @@
    SnapshotP.v (the snapshot), SimTimeP / SimTimerP / SimNetP (simulator invariants), RefWf.v (reference semantics).
    Statements as Coq prints them: Props/C04.statements.txt (pinned) and Proofs/HandoffSim.statements.txt.
 
-   C04_stage2 (the main theorem): let s0 be ANY reachable simulator state in which every located process is installed,
+   C04_stage3 / C04_stage2 (the main theorems; stage 3 = stage 2 with corruption allowed, see below): let s0 be ANY reachable simulator state in which every located process is installed,
    m0 its snapshot (ModelChecker::new) over the reference semantics; then for every run s1 .. sk of simulator steps
    from s0 - whatever delays within the bounds, drops, duplications and cut links the draws produce - there is ONE
    path of offered choices of the checker  m0 ->* m1 ->* ... ->* mk  (the checker may take extra duplication steps that
@@ -16,7 +16,14 @@
        (the quantifier text of C04);  handler_closed: sends only to known processes;
      - override-free steps (known finding F10): no set_timer on a name that is pending when the handler runs
        (SimRunOF; C04_stage2_once: the static form "only set_timer_once");
-     - corruption rate 0 (known finding F13: a corruptible copy is withheld behind an identical older copy);
+     - C04_stage2: corruption rate 0.  C04_stage3: corruption allowed under CorrSide (vacuous at rate 0:
+       C04_corrside_rate0; stage 2 is derived from stage 3: C04_stage2_from_stage3): the checker's `rate > 0.` test
+       agrees with the rate; no process sends to one destination both a message m and a message equal to corrupt(m)
+       that corruption would change again; every message in flight at the hand-off is same-node or unchanged by
+       corruption.  These exclude exactly the shape of known finding F13 (a corruptible copy withheld behind an
+       identical older copy that cannot be corrupted) - found while proving: corrupt is not idempotent, so F13 can
+       also arise dynamically from a process that sends both m and corrupt(m).  The checker pays for every corrupted
+       send eagerly: after the delivery step it splits the oldest identical pending copy down to one and corrupts it;
      - Routed s0 \/ NoCrash s0: in-flight messages are addressed to the node their destination lives on now (fails
        only after crash + recover + re-adding a process ON ANOTHER NODE; there snapshot and simulator disagree);
      - the continuation consists of step calls (no crash / recover / link operation during the continuation).
@@ -37,7 +44,7 @@
 From ASV Require Import Base.Util Base.Msg Base.Log Model.Sim Model.McSys Spec.TimeLaws
      Proofs.TimerOrder Proofs.SnapshotP Proofs.FateAgree Proofs.SimTimeP
      Proofs.HandoffSimBase Proofs.HandoffSim Proofs.HandoffSimEx Proofs.HandoffSim2Base Proofs.HandoffSim2 Proofs.HandoffSim2Ex
-     Proofs.HandoffSafe Proofs.HandoffSafeEx.
+     Proofs.HandoffSafe Proofs.HandoffSafeEx Proofs.HandoffSim3Base Proofs.HandoffSim3 Proofs.HandoffSim3Ex.
 
 Definition C04_safe := @HandoffSafe.C04_safe.
 Definition C04_safe_plain := @HandoffSafe.C04_safe_plain.
@@ -46,6 +53,12 @@ Definition C04_safe_once := @HandoffSafe.C04_safe_once.
 Definition C04_safe_steps := @HandoffSafe.C04_safe_steps.
 Definition C04_example_safe := @HandoffSafeEx.example_safe.
 Definition C04_example_safe_runs := @HandoffSafeEx.example_run.
+Definition C04_stage3 := @HandoffSim3.C04_stage3.
+Definition C04_stage3_once := @HandoffSim3.C04_stage3_once.
+Definition C04_stage3_steps := @HandoffSim3.C04_stage3_steps.
+Definition C04_corrside_rate0 := @HandoffSim3.corrside_rate0.
+Definition C04_stage2_from_stage3 := @HandoffSim3.C04_stage2_from_stage3.
+Definition C04_example_stage3 := @Handoff3Ex.example_steps3.
 Definition C04_stage2 := @HandoffSim2.C04_stage2.
 Definition C04_stage2_once := @HandoffSim2.C04_stage2_once.
 Definition C04_stage2_steps := @HandoffSim2.C04_stage2_steps.
@@ -73,6 +86,12 @@ Print Assumptions C04_safe_once.
 Print Assumptions C04_safe_steps.
 Print Assumptions C04_example_safe.
 Print Assumptions C04_example_safe_runs.
+Print Assumptions C04_stage3.
+Print Assumptions C04_stage3_once.
+Print Assumptions C04_stage3_steps.
+Print Assumptions C04_corrside_rate0.
+Print Assumptions C04_stage2_from_stage3.
+Print Assumptions C04_example_stage3.
 Print Assumptions C04_stage2.
 Print Assumptions C04_stage2_once.
 Print Assumptions C04_stage2_steps.
